@@ -215,6 +215,10 @@ type RTReq struct {
 type RTCase struct {
 	Cfg  RTConfig `json:"cfg"`
 	Reqs []RTReq  `json:"reqs"`
+	// Crowd (C06, static HTTP(S) upstream, no MITM): after the requests, this many CONNECTs - to a.test and b.test in
+	// turn - are sent at the same instant on connections of their own: what the upstream proxy is shown with each
+	// belongs to that CONNECT's target
+	Crowd int `json:"crowd,omitempty"`
 }
 
 var pacResults = []string{"DIRECT", "", "PROXY @P", "PROXY @Q", "HTTP @P", "HTTPS @T", "SOCKS5 @S", "SOCKS @S", "SOCKS4 @S", "FOO @P", "proxy @P",
